@@ -4,14 +4,20 @@ package c14
 
 import (
 	"fmt"
+	"context"
 	"math/big"
+	"sync"
+	"sync/atomic"
 	"runtime"
 	"sort"
 	"strings"
 	"testing"
 	"time"
 
+	"cuelang.org/go/internal/mod/modrequirements"
 	"cuelang.org/go/internal/mod/mvs"
+	"cuelang.org/go/internal/par"
+	"cuelang.org/go/mod/modfile"
 	"cuelang.org/go/internal/mod/semver"
 	"cuelang.org/go/mod/module"
 	"cuelang.org/go/verifh/evid"
@@ -118,11 +124,15 @@ func genGraph(t *rapid.T) GraphCase {
 			if rapid.IntRange(0, 30).Draw(t, "onmain") == 0 && m != target {
 				d = MV{"main", vers[0]} // a dependency requiring an older version of the main module
 			}
-			if d.P == m.P || seen[d.P] {
+			if d.P == m.P || (seen[d.P] && rapid.IntRange(0, 3).Draw(t, "dupok") > 0) {
 				continue
 			}
 			seen[d.P] = true
 			e.To = append(e.To, d)
+			if rapid.IntRange(0, 7).Draw(t, "twice") == 0 && d.P != "main" {
+				// the same module once more, at another version, right next to it
+				e.To = append(e.To, MV{d.P, vers[rapid.IntRange(0, len(vers)-1).Draw(t, "twicev")]})
+			}
 		}
 		c.Edges = append(c.Edges, e)
 		if m != target && rapid.IntRange(0, 60).Draw(t, "missing") == 0 {
@@ -793,7 +803,50 @@ func runSemver(c SemverCase) (res evid.Result) {
 func TestSemver(t *testing.T) {
 	evid.Main(t, evid.Check[SemverCase]{Name: "semver", Gen: func(t *rapid.T) SemverCase {
 		a, b, c := genVer(t), genVer(t), genVer(t)
-		switch rapid.IntRange(0, 5).Draw(t, "rel") {
+		mutate := func(v string) string {
+			// replace, drop or append one dot-separated component of the version core or pre-release
+			core, rest, hasPre := strings.Cut(strings.TrimPrefix(v, "v"), "-")
+			pre, build, hasBuild := strings.Cut(rest, "+")
+			if !hasPre {
+				core, build, hasBuild = strings.Cut(core, "+")
+			}
+			cs := strings.Split(core, ".")
+			ps := strings.Split(pre, ".")
+			ids := []string{"0", "1", "2", "9", "10", "99", "100", "18446744073709551615", "18446744073709551616", "99999999999999999999", "100000000000000000000", "a", "b", "alpha", "rc", "rc1", "A", "-", "a-", "1a", "x"}
+			switch rapid.IntRange(0, 4).Draw(t, "mutk") {
+			case 0:
+				cs[rapid.IntRange(0, len(cs)-1).Draw(t, "mci")] = rapid.SampledFrom(ids[:11]).Draw(t, "mcv")
+			case 1, 2:
+				if !hasPre {
+					hasPre, ps = true, []string{rapid.SampledFrom(ids).Draw(t, "mpv")}
+				} else {
+					ps[rapid.IntRange(0, len(ps)-1).Draw(t, "mpi")] = rapid.SampledFrom(ids).Draw(t, "mpv")
+				}
+			case 3:
+				if hasPre {
+					ps = append(ps, rapid.SampledFrom(ids).Draw(t, "mpv"))
+				}
+			case 4:
+				if hasPre && len(ps) > 1 {
+					ps = ps[:len(ps)-1]
+				} else {
+					hasPre = false
+				}
+			}
+			out := "v" + strings.Join(cs, ".")
+			if hasPre {
+				out += "-" + strings.Join(ps, ".")
+			}
+			if hasBuild {
+				out += "+" + build
+			}
+			return out
+		}
+		if rapid.Bool().Draw(t, "neighbours") {
+			b = mutate(a)
+			c = mutate(b)
+		}
+		switch rapid.IntRange(0, 9).Draw(t, "rel") {
 		case 0:
 			b = a
 		case 1: // b = a with another build or without pre-release
@@ -809,4 +862,263 @@ func TestSemver(t *testing.T) {
 		}
 		return SemverCase{a, b, c}
 	}, Run: runSemver})
+}
+
+// ---- pruned module graph through modrequirements (uses par.Queue) -------------
+
+type ModReqCase struct {
+	Roots []MV            // requirements of the main module
+	Deps  map[string][]MV // "path@version" -> requirements in its module file
+	Procs int             // GOMAXPROCS while loading (width of the load queue)
+	Delay int             // registry latency seed
+}
+
+type fakeRegistry struct {
+	c     ModReqCase
+	calls atomic.Int32
+}
+
+func (r *fakeRegistry) ModFile(ctx context.Context, mv module.Version) (*modfile.File, error) {
+	d := (len(mv.String())*7 + r.c.Delay) % 4
+	time.Sleep(time.Duration(d) * 200 * time.Microsecond)
+	defer r.calls.Add(1)
+	var sb strings.Builder
+	fmt.Fprintf(&sb, "module: %q\nlanguage: version: \"v0.8.0\"\n", mv.Path())
+	for _, d := range r.c.Deps[mv.Path()+"@"+mv.Version()] {
+		fmt.Fprintf(&sb, "deps: %q: v: %q\n", d.P, d.V)
+	}
+	return modfile.Parse([]byte(sb.String()), mv.String())
+}
+
+func genModReq(t *rapid.T) ModReqCase {
+	nm := rapid.IntRange(2, 7).Draw(t, "nmods")
+	vers := []string{"v0.1.0", "v0.2.0", "v0.2.1-alpha", "v0.3.0"}
+	c := ModReqCase{Deps: map[string][]MV{}, Procs: rapid.SampledFrom([]int{1, 1, 2, 3, 8}).Draw(t, "procs"), Delay: rapid.IntRange(0, 50).Draw(t, "delay")}
+	path := func(i int) string { return fmt.Sprintf("m%d.com@v0", i) }
+	seen := map[string]bool{}
+	nr := rapid.IntRange(1, nm).Draw(t, "nroots")
+	for i := 0; i < nr; i++ {
+		p := path(rapid.IntRange(0, nm-1).Draw(t, "root"))
+		if seen[p] {
+			continue
+		}
+		seen[p] = true
+		c.Roots = append(c.Roots, MV{p, rapid.SampledFrom(vers).Draw(t, "rootv")})
+	}
+	for i := 0; i < nm; i++ {
+		for _, v := range vers {
+			n := rapid.IntRange(0, 3).Draw(t, "ndeps")
+			ds := map[string]bool{}
+			for j := 0; j < n; j++ {
+				q := path(rapid.IntRange(0, nm-1).Draw(t, "dep"))
+				if q == path(i) || ds[q] {
+					continue
+				}
+				ds[q] = true
+				c.Deps[path(i)+"@"+v] = append(c.Deps[path(i)+"@"+v], MV{q, rapid.SampledFrom(vers).Draw(t, "depv")})
+			}
+		}
+	}
+	return c
+}
+
+func runModReq(c ModReqCase) (res evid.Result) {
+	defer func() {
+		if r := recover(); r != nil {
+			res.Fail = fmt.Sprintf("panic: %v", r)
+		}
+	}()
+	if c.Procs < 1 {
+		c.Procs = 1
+	}
+	defer runtime.GOMAXPROCS(runtime.GOMAXPROCS(c.Procs))
+	reg := &fakeRegistry{c: c}
+	var roots []module.Version
+	for _, r := range c.Roots {
+		roots = append(roots, module.MustNewVersion(r.P, r.V))
+	}
+	module.Sort(roots)
+	rs := modrequirements.NewRequirements("main.org@v0", reg, roots, nil)
+	mg, err := rs.Graph(context.Background())
+	if err != nil {
+		res.Fail = fmt.Sprintf("Requirements.Graph: %v", err)
+		return
+	}
+	loaded := int(reg.calls.Load())
+	// model: pruned graph = roots plus the direct requirements of every root
+	want := map[string]string{}
+	up := func(m MV) {
+		if cur, ok := want[m.P]; !ok || refCompare(m.V, cur) > 0 {
+			want[m.P] = m.V
+		}
+	}
+	multi := false
+	for _, r := range c.Roots {
+		up(r)
+	}
+	for _, r := range c.Roots {
+		for _, d := range c.Deps[r.P+"@"+r.V] {
+			if _, ok := want[d.P]; ok && want[d.P] != d.V {
+				multi = true
+			}
+			up(d)
+		}
+	}
+	if loaded != len(c.Roots) {
+		res.Fail = fmt.Sprintf("Graph returned after loading %d of %d root module files (GOMAXPROCS=%d)", loaded, len(c.Roots), c.Procs)
+		return
+	}
+	got := map[string]string{}
+	for _, m := range mg.BuildList() {
+		if m.Path() != "main.org@v0" {
+			got[m.Path()] = m.Version()
+		}
+	}
+	if render(got) != render(want) {
+		res.Fail = fmt.Sprintf("pruned module graph selects %s, model %s (GOMAXPROCS=%d)", render(got), render(want), c.Procs)
+		return
+	}
+	for p, v := range want {
+		if mg.Selected(p) != v {
+			res.Fail = fmt.Sprintf("Selected(%s) = %s, model %s", p, mg.Selected(p), v)
+			return
+		}
+	}
+	res.NonTrivial = multi
+	res.Classes = []string{fmt.Sprintf("procs%d", c.Procs)}
+	return
+}
+
+func TestModReq(t *testing.T) {
+	evid.Main(t, evid.Check[ModReqCase]{Name: "modreq", Gen: genModReq, Run: runModReq})
+}
+
+// ---- par.Queue / par.Work / par.Cache invariants -------------------------------------
+
+type ParCase struct {
+	Width  int
+	Tasks  []int // duration seed per top-level task
+	Nested []int // for task i: number of tasks it adds itself
+	Keys   []int // keys requested from the cache, in order, by concurrent callers
+}
+
+func runPar(c ParCase) (res evid.Result) {
+	defer func() {
+		if r := recover(); r != nil {
+			res.Fail = fmt.Sprintf("panic: %v", r)
+		}
+	}()
+	if c.Width < 1 {
+		c.Width = 1
+	}
+	q := par.NewQueue(c.Width)
+	var active, maxActive, done, added atomic.Int32
+	var run func(d int, nested int)
+	run = func(d int, nested int) {
+		a := active.Add(1)
+		for {
+			m := maxActive.Load()
+			if a <= m || maxActive.CompareAndSwap(m, a) {
+				break
+			}
+		}
+		for i := 0; i < d%3; i++ {
+			runtime.Gosched()
+		}
+		if d%5 == 0 {
+			time.Sleep(time.Duration(d%4) * 50 * time.Microsecond)
+		}
+		for i := 0; i < nested; i++ {
+			added.Add(1)
+			dd := d + i + 1
+			q.Add(func() { run(dd, 0) })
+		}
+		active.Add(-1)
+		done.Add(1)
+	}
+	for i, d := range c.Tasks {
+		n := 0
+		if i < len(c.Nested) {
+			n = c.Nested[i]
+		}
+		added.Add(1)
+		q.Add(func() { run(d, n) })
+	}
+	<-q.Idle()
+	if done.Load() != added.Load() {
+		res.Fail = fmt.Sprintf("Queue(width %d).Idle fired with %d of %d tasks finished", c.Width, done.Load(), added.Load())
+		return
+	}
+	if int(maxActive.Load()) > c.Width {
+		res.Fail = fmt.Sprintf("Queue(width %d) ran %d tasks at once", c.Width, maxActive.Load())
+		return
+	}
+	// Work: every added item is processed exactly once, also items added while running
+	var w par.Work[int]
+	var mu sync.Mutex
+	count := map[int]int{}
+	for _, d := range c.Tasks {
+		w.Add(d % 7)
+	}
+	w.Do(c.Width, func(item int) {
+		mu.Lock()
+		count[item]++
+		mu.Unlock()
+		if item < 20 {
+			w.Add(item + 7)
+		}
+	})
+	for _, d := range c.Tasks {
+		for it := d % 7; it < 27; it += 7 {
+			if count[it] != 1 {
+				res.Fail = fmt.Sprintf("Work.Do(%d) processed item %d %d times (items %v)", c.Width, it, count[it], c.Tasks)
+				return
+			}
+		}
+	}
+	// Cache: the function runs once per key, every caller gets its value
+	var cache par.Cache[int, int]
+	var calls sync.Map
+	var wg sync.WaitGroup
+	bad := atomic.Value{}
+	for _, k := range c.Keys {
+		wg.Add(1)
+		go func() {
+			defer wg.Done()
+			v := cache.Do(k, func() int {
+				n, _ := calls.LoadOrStore(k, new(atomic.Int32))
+				n.(*atomic.Int32).Add(1)
+				runtime.Gosched()
+				return k * 3
+			})
+			if v != k*3 {
+				bad.Store(fmt.Sprintf("Cache.Do(%d) = %d", k, v))
+			}
+		}()
+	}
+	wg.Wait()
+	if b := bad.Load(); b != nil {
+		res.Fail = b.(string)
+		return
+	}
+	calls.Range(func(k, v any) bool {
+		if n := v.(*atomic.Int32).Load(); n != 1 {
+			res.Fail = fmt.Sprintf("Cache.Do ran the function for key %v %d times", k, n)
+		}
+		return true
+	})
+	res.NonTrivial = len(c.Tasks) > c.Width
+	res.Classes = []string{fmt.Sprintf("width%d", c.Width)}
+	return
+}
+
+func TestPar(t *testing.T) {
+	evid.Main(t, evid.Check[ParCase]{Name: "par", Gen: func(t *rapid.T) ParCase {
+		return ParCase{
+			Width:  rapid.IntRange(1, 4).Draw(t, "width"),
+			Tasks:  rapid.SliceOfN(rapid.IntRange(0, 40), 0, 12).Draw(t, "tasks"),
+			Nested: rapid.SliceOfN(rapid.IntRange(0, 3), 0, 12).Draw(t, "nested"),
+			Keys:   rapid.SliceOfN(rapid.IntRange(0, 4), 0, 16).Draw(t, "keys"),
+		}
+	}, Run: runPar})
 }
